@@ -159,7 +159,15 @@ func Build(p *load.Program) (*Population, error) {
 				if callee != regObj && callee != regEnum {
 					return true
 				}
-				for _, a := range call.Args {
+				args := call.Args
+				if call.Ellipsis.IsValid() && len(call.Args) == 1 {
+					// RegisterObjects(list...): the list is a slice literal - written in place, kept in a variable that
+					// is assigned once, or returned by a function of the package whose body is that literal
+					if el := spreadElements(pk, file, call.Args[0]); el != nil {
+						args = el
+					}
+				}
+				for _, a := range args {
 					m := pp.memberFromArg(p, pk, a, callee == regEnum)
 					if m == nil {
 						pp.Problems = append(pp.Problems, fmt.Sprintf("%s: unrecognised registration argument %s", p.Pos(a.Pos()), types.ExprString(a)))
@@ -421,3 +429,78 @@ func (pp *Population) IsObject(t types.Type) bool      { return types.Implements
 func (pp *Population) IsMarshaler(t types.Type) bool   { return types.Implements(t, pp.tlMarshaler) }
 func (pp *Population) IsUnmarshaler(t types.Type) bool { return types.Implements(t, pp.tlUnmarsh) }
 func (pp *Population) ObjectIface() *types.Interface   { return pp.tlObject }
+
+// spreadElements resolves the argument of a variadic call written `f(list...)` to the elements of the slice literal
+// it denotes; nil when it is anything else.
+func spreadElements(pk *packages.Package, file *ast.File, arg ast.Expr) []ast.Expr {
+	lit := func(e ast.Expr) []ast.Expr {
+		if cl, ok := ast.Unparen(e).(*ast.CompositeLit); ok {
+			if _, isSlice := pk.TypesInfo.TypeOf(cl).Underlying().(*types.Slice); isSlice {
+				return cl.Elts
+			}
+		}
+		return nil
+	}
+	switch a := ast.Unparen(arg).(type) {
+	case *ast.CompositeLit:
+		return lit(a)
+	case *ast.Ident:
+		obj := pk.TypesInfo.Uses[a]
+		if obj == nil {
+			return nil
+		}
+		var found []ast.Expr
+		n := 0
+		ast.Inspect(file, func(nd ast.Node) bool {
+			switch st := nd.(type) {
+			case *ast.AssignStmt:
+				for i, l := range st.Lhs {
+					id, ok := l.(*ast.Ident)
+					if !ok || (pk.TypesInfo.Defs[id] != obj && pk.TypesInfo.Uses[id] != obj) {
+						continue
+					}
+					n++
+					if len(st.Rhs) == len(st.Lhs) {
+						found = lit(st.Rhs[i])
+					} else {
+						found = nil
+					}
+				}
+			case *ast.ValueSpec:
+				for i, id := range st.Names {
+					if pk.TypesInfo.Defs[id] == obj && i < len(st.Values) {
+						n++
+						found = lit(st.Values[i])
+					}
+				}
+			}
+			return true
+		})
+		if n == 1 {
+			return found
+		}
+	case *ast.CallExpr:
+		var fobj types.Object
+		switch f := a.Fun.(type) {
+		case *ast.Ident:
+			fobj = pk.TypesInfo.Uses[f]
+		case *ast.SelectorExpr:
+			fobj = pk.TypesInfo.Uses[f.Sel]
+		}
+		if fobj == nil || len(a.Args) != 0 {
+			return nil
+		}
+		for _, f := range pk.Syntax {
+			for _, d := range f.Decls {
+				fd, ok := d.(*ast.FuncDecl)
+				if !ok || fd.Body == nil || pk.TypesInfo.Defs[fd.Name] != fobj || len(fd.Body.List) != 1 {
+					continue
+				}
+				if rs, ok := fd.Body.List[0].(*ast.ReturnStmt); ok && len(rs.Results) == 1 {
+					return lit(rs.Results[0])
+				}
+			}
+		}
+	}
+	return nil
+}
